@@ -22,6 +22,8 @@ BodyStr(b) == CASE b = "nop" -> "Nop" [] b = "drop" -> "Drop"
                 [] b = "local_set_0" -> "LocalSet { local_index: 0 }"
                 [] b = "call_0" -> "Call { function_index: 0 }"
                 [] b = "unreachable" -> "Unreachable"
+                [] b = "block" -> "Block { blockty: Empty }" [] b = "loop" -> "Loop { blockty: Empty }"
+                [] b = "if" -> "If { blockty: Empty }" [] b = "else" -> "Else" [] b = "end" -> "End"
 BodyStrs(bs) == [i \in DOMAIN bs |-> BodyStr(bs[i])] \o <<"End">>
 
 \* strip the marker of explicit rec-group membership: type equality is structural (DESIGN 6 C13)
@@ -42,11 +44,33 @@ TypePositions(E, req) == {i \in DOMAIN E.types : E.types[i] = req}
 AddTypeRetOk(E, req, ret) == IF TypePositions(E, req) # {} THEN ret + 1 \in TypePositions(E, req) ELSE ret = Len(E.types)
 AddType(E, req) == IF TypePositions(E, req) # {} THEN E ELSE [E EXCEPT !.types = Append(@, req)]
 \* ---- C30 ------------------------------------------------------------------
-AddGlobal(E, req) == [E EXCEPT !.globals = Append(@, req)]
-ModInit(E, g, req) == [E EXCEPT !.globals[g + 1] = req]
+\* IDs returned by the API are HANDLES: the n-th item ever known in an index space has handle n-1.
+\* E.fh / E.gh / E.mh record, per handle, whether the item is imported.  The encoded index of a
+\* handle puts imported items first (in handle order), then local ones (in handle order).
+Flags(E, sp) == CASE sp = "f" -> E.fh [] sp = "g" -> E.gh [] sp = "m" -> E.mh
+CountImp(fl, n) == Cardinality({j \in 1 .. n : fl[j]})
+FinalIdx(E, sp, h) ==
+    LET fl == Flags(E, sp) IN
+    IF h + 1 \notin DOMAIN fl THEN -1
+    ELSE IF fl[h + 1] THEN CountImp(fl, h + 1) - 1
+    ELSE CountImp(fl, Len(fl)) + (h + 1 - CountImp(fl, h + 1)) - 1
+\* position (1-based) of local handle h in the list of local items
+LocalPos(E, sp, h) == h + 1 - CountImp(Flags(E, sp), h + 1)
+\* items that carry references: [s |-> text with @ for indices, refs |-> <<[sp, idx]>>]; a decoded item d
+\* agrees with an expected item e when texts agree and every decoded index is the final index of e's handle
+ItemOk(E, d, e) == /\ d.s = e.s /\ Len(d.refs) = Len(e.refs)
+                   /\ \A j \in DOMAIN e.refs : d.refs[j].sp = e.refs[j].sp /\ d.refs[j].idx = FinalIdx(E, e.refs[j].sp, e.refs[j].idx)
+ItemsOk(E, ds, es) == Len(ds) = Len(es) /\ \A i \in DOMAIN es : ItemOk(E, ds[i], es[i])
+NextHandle(E, sp) == Len(Flags(E, sp))
+AddGlobal(E, req) == [E EXCEPT !.globals = Append(@, req), !.gh = Append(@, FALSE)]
+AddIGlobal(E, req) == [E EXCEPT !.iglobals = Append(@, req), !.gh = Append(@, TRUE)]
+ModInit(E, g, req) == [E EXCEPT !.globals[LocalPos(E, "g", g)] = req]
 AddData(E, req)   == [E EXCEPT !.data = Append(@, req)]
-AddMemory(E, req) == [E EXCEPT !.mems = Append(@, req)]
+AddMemory(E, req) == [E EXCEPT !.mems = Append(@, req), !.mh = Append(@, FALSE)]
+AddIMemory(E, req) == [E EXCEPT !.imems = Append(@, req), !.mh = Append(@, TRUE)]
+AddIFunc(E)       == [E EXCEPT !.fh = Append(@, TRUE)]
 AddExport(E, x)   == [E EXCEPT !.exports = @ \cup {x}]
+SpOfKind(k) == CASE k = "Func" -> "f" [] k = "Global" -> "g" [] k = "Memory" -> "m" [] OTHER -> "?"
 \* ---- C28 ------------------------------------------------------------------
 CustAdd(E, name, bytes) == [E EXCEPT !.customs = Append(@, [name |-> name, bytes |-> bytes])]
 CustDel(E, id) == IF id < Len(E.customs) THEN [E EXCEPT !.customs = RemoveAtIdx(@, id + 1)] ELSE E
